@@ -6,6 +6,7 @@
 
 use crate::engine::*;
 use crate::flow::*;
+use crate::util::scale_case;
 use crate::props::c04::{build, explore_program, forests};
 use serde_json::{json, Value};
 
@@ -127,9 +128,55 @@ fn returns_inside(p: &Program, kind: &str) -> bool {
     p.funcs.iter().any(|f| walk(&f.body, false, kind))
 }
 
+
+/// Depth and repetition: recursion far deeper, and calls repeated far more often, than the bounded
+/// deviations of the other families reach (a call stack or frame table that is capped, trimmed or
+/// mixed up only shows beyond some size).
+fn scale(w: &mut Worker) {
+    let sizes: Vec<u64> = w.tier.pick(vec![10, 70, 300], vec![10, 70, 300, 1000, 3000]);
+    for &d in &sizes {
+        // plain recursion: the result comes back through d returns
+        let text = format!(
+            "fn down\nif equals ${{1}} 0\nreturn 0\nend\nn = calc ${{1}} - 1\nr = down ${{n}}\nr = calc ${{r}} + 1\nreturn ${{r}}\nend\nout = down {}\nafter = set reached",
+            d
+        );
+        scale_case(w, &format!("recursion-plain depth {}", d), &text, &[("out", Some(d.to_string())), ("after", Some("reached".into()))]);
+        // scoped recursion: every level still has its own argument after the inner call returned
+        let text = format!(
+            "fn <scope> sdown\nif equals ${{1}} 0\nreturn 0\nend\nn = calc ${{1}} - 1\nr = sdown ${{n}}\nr = calc ${{r}} + ${{1}}\nreturn ${{r}}\nend\nkeep = set mine\nout = sdown {}\nafter = set reached",
+            d
+        );
+        scale_case(
+            w,
+            &format!("recursion-scoped depth {}", d),
+            &text,
+            &[("out", Some((d * (d + 1) / 2).to_string())), ("keep", Some("mine".into())), ("n", None), ("r", None), ("1", None), ("after", Some("reached".into()))],
+        );
+        // a loop that calls a function in every iteration
+        let text = format!(
+            "fn addone\nv = calc ${{1}} + 1\nreturn ${{v}}\nend\nacc = set 0\ni = set 0\nwhile less_than ${{i}} {}\ni = calc ${{i}} + 1\nacc = addone ${{acc}}\nend\nafter = set reached",
+            d
+        );
+        scale_case(w, &format!("calls-in-loop count {}", d), &text, &[("acc", Some(d.to_string())), ("i", Some(d.to_string())), ("after", Some("reached".into()))]);
+        // a function that leaves its own for/in loop through return, called again and again
+        let text = format!(
+            "fn find\nfor x in ${{items}}\nif equals ${{x}} ${{1}}\nreturn found${{x}}\nend\nend\nreturn none\nend\nitems = array a b c d\nhits = set 0\nmiss = set 0\ni = set 0\nwhile less_than ${{i}} {}\ni = calc ${{i}} + 1\nres = find c\nif equals ${{res}} foundc\nhits = calc ${{hits}} + 1\nend\nres = find zz\nif equals ${{res}} none\nmiss = calc ${{miss}} + 1\nend\nend\nrelease ${{items}}\nafter = set reached",
+            d
+        );
+        scale_case(w, &format!("return-from-loop count {}", d), &text, &[("hits", Some(d.to_string())), ("miss", Some(d.to_string())), ("after", Some("reached".into()))]);
+        // a scoped function called from a plain one called from a loop; the output variable is the only thing that comes back
+        let text = format!(
+            "fn <scope> inner\nt = set ${{1}}${{1}}\nreturn ${{t}}\nend\nfn outer\no = inner ${{1}}\nreturn ${{o}}!\nend\nlast = set none\ni = set 0\nwhile less_than ${{i}} {}\ni = calc ${{i}} + 1\nlast = outer ${{i}}\nend\nafter = set reached",
+            d
+        );
+        scale_case(w, &format!("nested-calls count {}", d), &text, &[("last", Some(format!("{}{}!", d, d))), ("t", None), ("after", Some("reached".into()))]);
+    }
+}
+
 pub fn worker(w: &mut Worker) {
     let tier = w.tier;
     w.set_case_limit_ms(20_000);
+    scale(w);
     let rig = FlowRig::new();
     let (devs, horizon) = tier.pick((2usize, 8usize), (3usize, 10usize));
     let maxblocks = tier.pick(1usize, 2usize);
@@ -379,6 +426,9 @@ pub fn worker(w: &mut Worker) {
 }
 
 pub fn replay(case: &Value) -> Result<String, String> {
+    if let Some(r) = crate::util::scale_replay(case) {
+        return r;
+    }
     crate::props::c04::replay(case)
 }
 
@@ -386,7 +436,7 @@ pub fn crash_sig(_case: &Value, kind: &str) -> String {
     kind.to_string()
 }
 
-pub const RULE: &str = "family 1: one function (plain and <scope>) whose body is every block forest with 0..B blocks (if/elseif/else, while, for-in) with nothing, `return r1` or a bare `return` planted at every position of the body (depth-first, inside every nesting), with and without a trailing `return r9`; main sets a global and a pre-existing output variable and calls the function in every sequence of 1..2 call forms and selected triples from {statement, `x = f p`, `x = f \"q r\" s`, condition position `if f p`}. family 2: two functions where the outer one calls the inner one (as assignment, statement, in condition position, from a for body) and the inner one returns from inside for / while-in-if or calls itself guarded by an answer (also from inside a for body), all scoped/plain combinations. family 3: 'find first' functions (a loop that returns from a later iteration) called two or three times in every form, explored with 4-5 deviations. Every answer sequence (truth values, array lengths) with bounded deviations; each execution compared with the tree-walking interpreter with call semantics (arguments as global variables 1..n, scoped save/restore, value-less end leaves the output variable undefined). Function-body emits show ${1} and a global ${g} so argument binding and scope isolation are observable. The two corners the property leaves open are masked";
+pub const RULE: &str = "family 1: one function (plain and <scope>) whose body is every block forest with 0..B blocks (if/elseif/else, while, for-in) with nothing, `return r1` or a bare `return` planted at every position of the body (depth-first, inside every nesting), with and without a trailing `return r9`; main sets a global and a pre-existing output variable and calls the function in every sequence of 1..2 call forms and selected triples from {statement, `x = f p`, `x = f \"q r\" s`, condition position `if f p`}. family 2: two functions where the outer one calls the inner one (as assignment, statement, in condition position, from a for body) and the inner one returns from inside for / while-in-if or calls itself guarded by an answer (also from inside a for body), all scoped/plain combinations. family 3: 'find first' functions (a loop that returns from a later iteration) called two or three times in every form, explored with 4-5 deviations. Every answer sequence (truth values, array lengths) with bounded deviations; each execution compared with the tree-walking interpreter with call semantics (arguments as global variables 1..n, scoped save/restore, value-less end leaves the output variable undefined). Function-body emits show ${1} and a global ${g} so argument binding and scope isolation are observable. The two corners the property leaves open are masked. Scale family: plain and <scope> recursion of depth 10/70/300 (thorough: 1000, 3000), a function called from a loop 10..300 times, a function that returns from inside its own for/in loop called 2x10..300 times, a scoped function called from a plain one called from a loop; results and the variables that must stay undefined are compared with values computed in Rust";
 pub const ASSUMPTIONS: &[&str] = &["spelling of fn/return keywords rotates over their aliases and full names", "loop variables after their loop and handle names are masked in the final variables"];
 pub const EXHAUSTIVE: bool = true;
 pub const WALL_CAP_S: (u64, u64) = (55, 2700);
